@@ -18,7 +18,8 @@ class PedScenario:
         self.trios = []          # (father, mother, child)
         self.samples = []
         for k in range(n_trios):
-            f, m, c = f"F{k}", f"M{k}", f"C{k}"
+            # the first child's name sorts before or after its sibling's ("D…"): PED lines are not always alphabetical
+            f, m, c = f"F{k}", f"M{k}", (f"C{k}" if rng.random() < 0.5 else f"Z{k}")
             self.samples += [f, m, c]
             self.trios.append((f, m, c))
             if quartet and k == 0:
